@@ -351,7 +351,7 @@ def families(tier: str, seed: int = 0):
                         yield case
 
 
-def campaign(ctx: core.Ctx, tier: str, shard: int, nshards: int) -> None:
+def _campaign(ctx: core.Ctx, tier: str, shard: int, nshards: int) -> None:
     quick = tier == "quick"
     all_prefixes(ctx, shard, nshards, 6 if quick else 60)
     for i, src in enumerate(pumps([200, 2000, 5000] if quick else [200, 2000, 5000, 20000])):
@@ -376,7 +376,16 @@ def _lax_fanout(case) -> bool:
 KNOWN_PREDICATES = {"C09-lax-fanout-include": _lax_fanout, "C09-lax-fanout-render": _lax_fanout}
 
 
-def finish_kwargs(ctx: core.Ctx, tier: str) -> dict:
+def campaign(ctx: core.Ctx, tier: str, shard: int, nshards: int) -> None:
+    _campaign(ctx, tier, shard, nshards)
+    if tier == "thorough":
+        # coverage-guided stage: one libFuzzer campaign per shard with this module's evaluate() as the in-target oracle
+        from .. import fuzz
+
+        fuzz.campaign(ctx, PID, runs=40000, seed=core.sub_seed(ctx.seed, shard, 9))
+
+
+def _finish_kwargs(ctx: core.Ctx, tier: str) -> dict:
     return {
         "case_predicates": KNOWN_PREDICATES,
         "rule": (
@@ -397,3 +406,13 @@ def finish_kwargs(ctx: core.Ctx, tier: str) -> dict:
             "CPU time above 20 s per parse is only labelled inconclusive (regex time in C is invisible to tracing)",
         ],
     }
+
+
+def finish_kwargs(ctx: core.Ctx, tier: str) -> dict:
+    kw = _finish_kwargs(ctx, tier)
+    if tier == "thorough":
+        from .. import fuzz
+
+        kw["rule"] += fuzz.RULE_NOTE
+        kw.setdefault("assumptions", []).append(fuzz.ASSUMPTION)
+    return kw
